@@ -186,6 +186,15 @@ func Run(c *core.Ctx) core.FinishOpts {
 	selftest := os.Getenv("VERIF_SELFTEST") == "1"
 	runner := cli.NewRunner(c.BinDir, c.Scratch)
 	var rejected, judged int64
+	dir := directedCases(c.Rng("directed"))
+	core.Parallel(len(dir), 16, func(i int) {
+		tc := dir[i]
+		tc.id = fmt.Sprintf("d%d", i)
+		if c.Only != "" && c.Only != tc.id {
+			return
+		}
+		one(c, runner, tc, false, &rejected, &judged)
+	})
 	core.Parallel(nCases, 16, func(i int) {
 		id := fmt.Sprintf("q%d", i)
 		if c.Only != "" && c.Only != id {
@@ -326,7 +335,8 @@ func one(c *core.Ctx, runner *cli.Runner, tc *tcase, corrupt bool, rejected, jud
 	c.Sample(map[string]interface{}{"id": tc.id, "sql": tc.sql, "mode": tc.mode, "rows": len(ou.Rows), "shape": tc.shape})
 	why := ""
 	switch {
-	case strings.Join(oo.Header, "\x00") != strings.Join(ou.Header, "\x00"):
+	case len(oo.Header) > 0 && len(ou.Header) > 0 && strings.Join(oo.Header, "\x00") != strings.Join(ou.Header, "\x00"):
+		// (-o json prints no column names when there are no rows: then the rows decide)
 		why = fmt.Sprintf("column names differ: optimized %v, unoptimized %v", oo.Header, ou.Header)
 	case tc.ordered && oo.Retractions() == 0 && ou.Retractions() == 0:
 		if len(oo.Rows) != len(ou.Rows) {
